@@ -26,3 +26,6 @@ add("C22", "exploration", "bounded-exhaustive differential check of composed vs 
     "the C21 sequences x 7 (fine, coarse) pairs: candlecandler(coarse) over tickcandler(fine) output vs tickcandler(coarse) directly", AG + "; UTC", "seqmc")
 add("C23", "exploration", "bounded-exhaustive enumeration of typed columns and epoch sequences against reference aggregates",
     "every tuple of length 0-3 (thorough 0-4) over each numeric type's boundary alphabet for count/min/max/avg, every difference sequence of length <=4 x 6 thresholds for gap", AG, "seqmc")
+add("C09", "exploration", "bounded-exhaustive enumeration of variable-record write histories against a record bag",
+    "every history of <=2 (thorough <=3) requests over a 16-symbol record alphabet (4 intervals incl. year edges x 4 sub-interval offsets incl. +1 ns and end-1 ns) for 1Sec/1Min/1H/1D, plus n identical records up to 20000 (compressibility axis); after each request the all-time query must return every record once, in time order, inside its interval and at most one resolution step early",
+    TB + "; UTC; BackgroundSync=false", "seqmc")
